@@ -22,6 +22,7 @@ def warm():
     ic.gen(wd, "A3", "id")
     ic.gen(wd, "A4o", "id")
     ic.gen(wd, "P5", "id")
+    ic.gen_x(wd)
 
 
 def inputs(wd, tier):
@@ -54,9 +55,16 @@ def inputs(wd, tier):
     # the repository's example catalogue (5-8 node graphs from the literature): its own example queries and a seeded
     # sample of the identifiable queries with |X| + |Y| <= 3 (IDGenFile.tla)
     exg = ex.id_items(wd, "id")
-    exi = [dict(it, qs=[q for q in it["qs"] if q[3]], own=[q for q in it["own"] if q[3]]) for it in exg["items"]]
+    # (the semantic clause costs 2^n assignments per nested sum: catalogue graphs with <= 6 nodes here, the 7-8 node ones
+    #  are covered by the outcome classes of C02 and the separation tables of C04 / C15 / C20)
+    exi = [dict(it, qs=[q for q in it["qs"] if q[3]], own=[q for q in it["own"] if q[3]]) for it in exg["items"]
+           if len(it["g"]["n"]) <= 6]
     exitems = ex.pick(exi, 6 if tier == "quick" else 40, qrng, "EX-")
-    return items + r5items + p5items + deep4 + exitems, [g3, g4, r5, p5, exg]
+    # every identifiable query of the chain family CH5 whose run applies line 6 to a non-observational distribution with a
+    # district of >= 2 variables that a treatment separates in the topological order (IDGenX.tla WideL6; 298 queries)
+    chx = ic.gen_x(wd)[0]
+    chitems = ic.with_gids(chx["items"], "CH5-")
+    return items + r5items + p5items + deep4 + exitems + chitems, [g3, g4, r5, p5, exg, chx]
 
 
 def run(tier: str) -> int:
@@ -105,4 +113,4 @@ def run(tier: str) -> int:
     return out.finish("model_checking", cov, [
         "SCM family S: binary (one ternary in thorough) variables, one binary latent per bidirected edge (per clique in thorough), generic kernels in GF(32749)",
         "identity testing is one-sided: a wrong estimand escapes with probability <= deg/32749 per seed",
-        "beyond 5 nodes only the catalogue graphs (6-8 nodes, a sample of their queries) are explored"])
+        "beyond 5 nodes only the 6-node catalogue graph (a sample of its queries) is explored semantically"])
